@@ -942,9 +942,16 @@ def rule_DZ1(ctx, files=None):
             child = i
             for a in f.ancestors(i):
                 an = f.nodes[a]
+                cnd = None
                 if an['k'] == 'ConditionalOperator' and len(an['ch']) == 3 and child in an['ch'][1:]:
+                    cnd = an['ch'][0]
+                elif an['k'] == 'IfStmt' and child in (an.get('then', -1), an.get('else', -1)):
+                    # the path facts can be incomplete in a function with many branches (alternatives are bounded);
+                    # an enclosing `if` that tests the member is a guard all the same
+                    cnd = an.get('cond', -1)
+                if cnd is not None and cnd >= 0:
                     cmem, clocal = set(), False
-                    for j in f.walk(an['ch'][0]):
+                    for j in f.walk(cnd):
                         jn = f.nodes[j]
                         if jn['k'] == 'MemberExpr' and jn.get('thisbase'):
                             cmem.add(jn.get('m'))
@@ -964,6 +971,11 @@ def rule_DZ1(ctx, files=None):
                     return not atom.startswith('eq:') and 'v:' not in atom and \
                         any(re.search(re.escape(k_) + r'(?![A-Za-z0-9_])', atom) for k_ in keys)
                 if not all(any(tests(a) for a, pol in alt) for alt in alts):
+                    if all(len(alt) == 0 for alt in alts) and any(tests(a) for a in fl.mentions):
+                        # no fact at all survives here although the function does test the member somewhere: the
+                        # bounded set of alternatives was collapsed (many branches); nothing can be concluded
+                        res.note('undecided (path facts collapsed): %s at %s' % (m, f.loc(i)))
+                        continue
                     bad = m
                     break
             res.ob(bad is None, {'fn': f.q, 'at': f.loc(i), 'divisor_members': sorted(ms)})
